@@ -202,6 +202,76 @@ def graph_chunk(specs):
     return n, nt, mism, fails
 
 
+class Bag(list):
+    """a user container printed by a printer that is registered *by name* (pending until its first print, re-armed before every case)"""
+
+
+def _print_bag(value, ctx):
+    return pp.pretty_call_alt(ctx, 'Bag', args=(list(value),))
+
+
+def byname_and_trailing_cycle_check():
+    """(1) cycles through a container whose printer is registered by qualified name: promoted printers take part in the visit
+    bookkeeping like directly registered ones.  (2) acyclic values under a trailing comment on types whose printers do not take the
+    comment themselves (frozenset, deque, OrderedDict, defaultdict, Counter, ChainMap, mappingproxy): no marker, same text as without."""
+    import collections
+    import types
+    bad = []
+    name = Bag.__module__ + '.' + Bag.__qualname__
+
+    def arm():
+        pp.register_pretty(name)(_print_bag)
+
+    def case1():
+        b = Bag([1])
+        inner = [b]
+        b.append(inner)
+        return b, 'Bag([1, [<Recursion on Bag with id=%d>]])' % id(b)
+
+    def case2():
+        lst = []
+        b = Bag([lst])
+        lst.append(b)
+        return lst, '[Bag([<Recursion on list with id=%d>])]' % id(lst)
+
+    def case3():
+        b = Bag([1])
+        return [b, b], '[Bag([1]), Bag([1])]'
+
+    def case4():
+        d = {}
+        b = Bag([d])
+        d['k'] = b
+        return d, "{'k': Bag([<Recursion on dict with id=%d>])}" % id(d)
+
+    def case5():
+        b = Bag()
+        b.append(b)
+        return b, 'Bag([<Recursion on Bag with id=%d>])' % id(b)
+    for mk in (case1, case2, case3, case4, case5):
+        for again in (False, True):
+            if not again:
+                arm()          # pending: this print promotes the printer
+            v, want = mk()
+            got = safe_pformat(v, (4, 200, 200, None, 1000, 0), limit=5)
+            if got != want:
+                bad.append({'kind': 'cycle-handling', 'why': 'a container printed by a by-name printer (%s): printed %r, expected %r' % (
+                    'just promoted' if not again else 'promoted earlier', got[:200], want), 'graph': mk.__name__})
+                break
+    plain = [frozenset([1, 2]), collections.deque([1, [2]]), collections.OrderedDict([('a', [1])]), collections.defaultdict(list, a=[1]),
+             collections.Counter('aab'), collections.ChainMap({'a': 1}, {'b': [2]}), types.MappingProxyType({'m': [1]})]
+    for x in plain:
+        for wrapv in (lambda y: pp.trailing_comment(y, 'tc'), lambda y: [pp.trailing_comment(y, 'tc'), 1], lambda y: {'k': pp.trailing_comment(y, 'tc')},
+                      lambda y: (pp.trailing_comment(y, 'tc'), y)):
+            v = wrapv(x)
+            got = safe_pformat(v, (4, 200, 200, None, 1000, 0), limit=5)
+            if 'Recursion on' in got or got.startswith('EXC:'):
+                bad.append({'kind': 'cycle-handling', 'why': 'an acyclic value under a trailing comment is printed with a recursion marker (or fails): %r' % got[:200],
+                            'graph': 'trailing comment on %s' % type(x).__name__})
+                break
+    return bad[:3]
+
+
 def commented_cycle_check():
     """cycles that run through comment() / trailing_comment() wrappers (a commented dict value is rendered a second time for the
     comment-above layout): at every width printing terminates and the markers sit exactly at the back-references.  Oracle only."""
@@ -275,6 +345,7 @@ def graphs_section(tier, seed):
             mism.extend(mm)
             fails.extend(ff)
     fails.extend(commented_cycle_check())
+    fails.extend(byname_and_trailing_cycle_check())
     stats = {'evaluations': tot, 'distinct_nontrivial': nt, 'graphs': len(specs), 'mismatches': len(mism), 'commented_cycles_checked': True,
              'samples': [{'graph': specs[-3]}, {'graph': specs[100]}],
              'rule': 'rooted object graphs of list / dict / tuple nodes: all 2-node graphs with <= 2 children per node (sampled in quick), sampled 3-node graphs (thorough), '
